@@ -213,17 +213,18 @@ Print Assumptions C08_geom_jaccard_per_base.
 (* LINK: for every correspondence case inside the property's domain — all 18 case classes: pileup, bedgraph pileup,
    mask, merge, the three sort routes, count_overlap, intersect, unique_intersect, jaccard, forbes, Geometry.jaccard,
    clip, extend_to_size, Geometry pileup / mask / merge — "the implementation's observation equals the model's output"
-   (model_ok) implies "the observation satisfies the property" (spec_ok).  The only guard: arithmetics.jaccard / forbes
-   (stream route) on an interval set without entries, where the library raises (known finding
-   C08-similarity-empty-set-raises); without the guard the link is refuted. *)
-Theorem C08_model_implies_spec_partial :
-  forall c, domain c = true -> ((k_op c = 11 \/ k_op c = 12) -> A c <> [] /\ B c <> []) ->
-  model_ok c = true -> spec_ok c = true.
+   (model_ok) implies "the observation satisfies the property" (spec_ok).  Unconditional since the repair a68b397
+   (jaccard / forbes accept an interval set without entries; an empty union / an empty marginal gives 0/0 = nan). *)
+Theorem C08_model_implies_spec :
+  forall c, domain c = true -> model_ok c = true -> spec_ok c = true.
 Proof. exact model_implies_spec. Qed.
-Print Assumptions C08_model_implies_spec_partial.
-Theorem C08_model_implies_spec_refuted : exists c, domain c = true /\ model_ok c = true /\ spec_ok c = false.
-Proof. exact model_implies_spec_unguarded_refuted. Qed.
-Print Assumptions C08_model_implies_spec_refuted.
+Print Assumptions C08_model_implies_spec.
+(* history: before a68b397 the stream route raised on an interval set without entries *)
+Theorem C08_similarity_stream_pinned_refuted :
+  exists A B size, wf_set A size /\ wf_set B size
+    /\ stream_similarity_pinned jaccard_model A B size <> Ret (jaccard_spec A B size).
+Proof. exact stream_similarity_pinned_refuted. Qed.
+Print Assumptions C08_similarity_stream_pinned_refuted.
 
 (* Source tie: the per-element arithmetic regenerated on this run from /repo (Gen/C08.v, written by translate/run.py
    from arithmetics/intervals.py, arithmetics/similarity_measures.py and genomic_data/geometry.py) is the arithmetic
